@@ -72,3 +72,51 @@ Definition mixed_case : list batch :=
              mc_rec mc_get 500 1700000002123; mc_rec mc_GET 404 1700000003123;
              mc_rec mc_GET 201 1700000004123]
             false false (fun u => u) (fun u => u) (fun u => u) (fun u => u) ].
+
+(* The variant "the entry name is read back with an unbounded split"
+   (strings.Split instead of strings.SplitN(..., 2); Endpoint{parts[0],
+   parts[1]}): the URL is cut at the SECOND ":::" of the name, i.e. at the first
+   one the URL itself contains.  (With fewer than two parts the variant skips
+   the entry; a name written by [persist] always has two, the default below is
+   not reached from it.) *)
+Definition rkey_all (s : str) : key :=
+  match split_delim s with
+  | Some (m, rest) =>
+      match split_delim rest with
+      | Some (u, _) => (m, u)
+      | None => (m, rest)
+      end
+  | None => (s, [])
+  end.
+
+(* two URLs that contain the delimiter and differ only after it ("a:::b" 2
+   records, "a:::c" 3 records), one flush *)
+Definition dl_rec (u : str) (st ts : Z) : rec :=
+  mkRec mc_GET u st 10 12 ts [116] [112; 121; 47; 49] false.
+Definition dl_ab : str := [97] ++ delim ++ [98].
+Definition dl_ac : str := [97] ++ delim ++ [99].
+Definition delim_in_urls : list batch :=
+  [ mkBatch [dl_rec dl_ab 200 1700000000123; dl_rec dl_ac 200 1700000001123;
+             dl_rec dl_ab 500 1700000002123; dl_rec dl_ac 404 1700000003123;
+             dl_rec dl_ac 201 1700000004123]
+            false false (fun u => u) (fun u => u) (fun u => u) (fun u => u) ].
+
+(* The variant "status values outside 100..599 are left out of the status
+   counts" (countStatusCodes skips such a record; the request count still has
+   it).  countStatusCodes is the only producer of status entries and every
+   later step (Combine, re-keying, persist / restore) handles status entries
+   one status value at a time, so the variant's state is the state of the code
+   with the entries of those status values removed — it is modelled as this
+   filter on the state, not as a switch inside [run]. *)
+Definition is_http_status (st : Z) : bool := (100 <=? st) && (st <=? 599).
+Definition drop_non_http (s : state) : state :=
+  {| sE := sE s;
+     sES := filter (fun e => is_http_status (snd (fst e))) (sES s);
+     sC := sC s;
+     sCS := filter (fun e => is_http_status (snd (fst e))) (sCS s);
+     sI := sI s |}.
+
+Definition st_rec (st : Z) : rec := mkRec [71] [104] st 1 2 5 [] [] false.
+Definition odd_statuses : list batch :=
+  [ mkBatch [st_rec 200; st_rec (-1); st_rec 0; st_rec (-1); st_rec 999; st_rec 600; st_rec 99]
+            false false (fun u => u) (fun u => u) (fun u => u) (fun u => u) ].
